@@ -215,6 +215,9 @@ func docStruct(sv reflect.Value, ch docChooser, top bool) []byte {
 		case vocab.KTime:
 			t := fv.Interface().(time.Time)
 			if !t.IsZero() {
+				if _, off := t.Zone(); off%60 != 0 {
+					t = t.UTC() // RFC 3339 offsets have no seconds: an independent writer names such an instant in UTC
+				}
 				ms = append(ms, docMember{f.Term, jsonScalar(t.Format(time.RFC3339))})
 			}
 		case vocab.KDur:
@@ -361,6 +364,8 @@ func TestC05(t *testing.T) {
 
 	if r.WantLayer("cells", true) {
 		cells, _ := vocab.SingleCells(false)
+		// embedded objects that have neither id nor type and say one thing only: what they say is in the document, so it is in the value
+		cells = append(cells, vocab.AnonymousCells(false)...)
 		done := 0
 		for ri, ch := range []docChooser{fixedChoices{false}, fixedChoices{true}} {
 			for _, c := range cells {
